@@ -153,8 +153,8 @@ class GpLinearInverter:
         theta = asarray(theta, dtype=float)
         K = self.cov.build_covariance(theta[self.cov_slice])
         prior_mean = self.mean.build_mean(theta[self.mean_slice])
-        if self.A.shape[0] <= self.A.shape[1]:
-            # no more data than parameters: work in the space of the data, where
+        if self.A.shape[0] < self.A.shape[1]:
+            # fewer data than parameters: work in the space of the data, where
             # A K A^T + sigma is symmetric and as well conditioned as the problem is.
             # (I + K W below has a condition number of (prior amplitude / data error)**2
             # in this case, however well determined the problem)
@@ -182,7 +182,7 @@ class GpLinearInverter:
         theta = asarray(theta, dtype=float)
         K = self.cov.build_covariance(theta[self.cov_slice])
         prior_mean = self.mean.build_mean(theta[self.mean_slice])
-        if self.A.shape[0] <= self.A.shape[1]:
+        if self.A.shape[0] < self.A.shape[1]:
             # (as in calculate_posterior)
             L = cholesky(self.A @ K @ self.A.T + self.sigma)
             v = solve_triangular(L, self.y - self.A @ prior_mean, lower=True)
